@@ -90,6 +90,16 @@ func c20Gen(g *core.Gen) {
 			} {
 				g.Emit(&c20Case{Fmt: f, Cmd: c, Class: "create", State: "fresh", Cwd: cw})
 			}
+			// option values at and beyond their limits: whatever par decides, exit 0 must mean a complete valid set
+			for _, c := range [][]string{
+				{"create", "-s", "0", "{PAR}", "{F0}"}, {"create", "-s", "6", "{PAR}", "{F0}"}, {"create", "-s", "-4", "{PAR}", "{F0}"}, {"create", "-s", "1048576", "{PAR}", "{F0}"},
+				{"create", "-s", "4", "-c", "0", "{PAR}", "{F0}"}, {"create", "-s", "4", "-c", "-1", "{PAR}", "{F0}"}, {"create", "-s", "4", "-c", "255", "{PAR}", "{F0}", "{F1}"}, {"create", "-s", "4", "-c", "256", "{PAR}", "{F0}", "{F1}"},
+				{"create", "-s", "4", "-c", "32768", "{PAR}", "{F0}"}, {"create", "-s", "4", "-c", "65536", "{PAR}", "{F0}"}, {"create", "-s", "4", "-c", "100", "{PAR}", "{F0}", "{F1}"},
+				{"-g", "0", "create", "-s", "4", "{PAR}", "{F0}", "{F1}"}, {"-g", "-3", "create", "-s", "4", "{PAR}", "{F0}", "{F1}"}, {"-g", "100000", "create", "-s", "4", "{PAR}", "{F0}", "{F1}"},
+				{"create", "-s", "4", "{PAR}", "{F0}", "{F0}"}, {"create", "-s", "4", "{PAR}", "{PAR}"}, {"create", "-s", "4", "{PAR}"},
+			} {
+				g.Emit(&c20Case{Fmt: f, Cmd: c, Class: "create", State: "boundary", Cwd: cw})
+			}
 			g.Emit(&c20Case{Fmt: f, Cmd: []string{"create", "-s", "4", "{PAR}", "{F0}", "{MISSING}"}, Class: "create", State: "missing-input", Cwd: cw})
 			g.Emit(&c20Case{Fmt: f, Cmd: []string{"create", "-s", "4", "{NODIR}", "{F0}"}, Class: "create", State: "no-directory", Cwd: cw})
 			// an output file cannot be written: a directory sits at the path of the index / first / last recovery file
@@ -401,10 +411,10 @@ func c20Run(ci interface{}, r *core.Rec) {
 				fail("repair-possible-but-failed")
 			}
 		case "create":
-			if strings.HasPrefix(c.State, "blocked-") {
+			if strings.HasPrefix(c.State, "blocked-") || c.State == "boundary" {
 				// whichever names Create chose, exit 0 is acceptable only if the written set is complete (checked below);
 				// with the conventional names the blocked path makes one write fail, which must not exit 0
-				if code == 3 {
+				if code == 3 && c.State != "boundary" { // a boundary option value may legitimately be a usage error
 					fail("failure-exit-status-wrong")
 					break
 				}
@@ -435,12 +445,16 @@ func c20Run(ci interface{}, r *core.Rec) {
 					fmt.Sscan(cmdT[i+1], &want)
 				}
 			}
+			// at least the requested number of blocks / volumes (par treats -c 0 as 'default' for PAR1; a negative count cannot be met literally)
+			if c.Fmt == "p1" && want > 99 {
+				want = 99 // gopar's PAR1 reader looks for .p01 .. .p99 only (documented TODO); further volumes are written but not counted
+			}
 			if c.Fmt == "p2" {
 				res, e := par2.Verify(index, par2.VerifyOptions{NumGoroutines: 1})
-				verr, clean = e, e == nil && !res.ShardCounts.RepairNeeded() && res.ShardCounts.UsableParityShardCount == want
+				verr, clean = e, e == nil && !res.ShardCounts.RepairNeeded() && res.ShardCounts.UsableParityShardCount >= want
 			} else {
 				res, e := par1.Verify(index, par1.VerifyOptions{VerifyAllData: true})
-				verr, clean = e, e == nil && res.AllDataOk && res.FileCounts.UsableParityFileCount == want
+				verr, clean = e, e == nil && res.AllDataOk && res.FileCounts.UsableParityFileCount >= want
 			}
 			if !clean {
 				r.Violatef("create-exit-0-but-set-not-valid", "%s; library Verify: %v", what, verr)
@@ -497,7 +511,7 @@ func init() {
 	core.Register(&core.Prop{
 		ID:    "C20",
 		Level: "model_checking",
-		Rule: "full product through the built par binary: {PAR1, PAR2} x {verify, v, VERIFY, -g 2 verify, verify -a; repair, r, Repair, repair -doublecheck, -g 3 r -doublecheck=true} x archive state {intact, repairable by deletion, by shift/change, by removing appended bytes, shift+deletion, unrepairable, no parity (data intact / file deleted / file only shifted), one block left + shift, damaged index, missing index} x invocation directory {set directory with relative paths, parent with relative paths, unrelated with absolute paths}; command histories: a first verify / repair followed by every sequence of 2 (thorough 3) further steps from {verify, verify -a, repair, repair -doublecheck, delete a file, restore all files} from 5 starting states, every command judged against the byte truth at that moment; create variants (incl. missing input, missing directory, an output path blocked by a directory: index, first and last recovery file), 11 usage-error command lines, unknown extensions. " +
+		Rule: "full product through the built par binary: {PAR1, PAR2} x {verify, v, VERIFY, -g 2 verify, verify -a; repair, r, Repair, repair -doublecheck, -g 3 r -doublecheck=true} x archive state {intact, repairable by deletion, by shift/change, by removing appended bytes, shift+deletion, unrepairable, no parity (data intact / file deleted / file only shifted), one block left + shift, damaged index, missing index} x invocation directory {set directory with relative paths, parent with relative paths, unrelated with absolute paths}; command histories: a first verify / repair followed by every sequence of 2 (thorough 3) further steps from {verify, verify -a, repair, repair -doublecheck, delete a file, restore all files} from 5 starting states, every command judged against the byte truth at that moment; create variants (incl. option values at and beyond their limits - slice size 0 / 6 / negative / 2^20, block count 0 / -1 / 255 / 256 / 32768 / 65536, goroutines 0 / negative / 100000, an input listed twice, the index as its own input, no input: there only 'exit 0 => complete valid set' is judged -; missing input, missing directory, an output path blocked by a directory: index, first and last recovery file), 11 usage-error command lines, unknown extensions. " +
 			"Oracle (one-directional, as stated): exit 0 => full success by byte truth / library re-verification; verify needed&possible => 1, needed&impossible => 2; repair needed&impossible => 2, possible => 0 and files restored; usage => 3; other failures => neither 0 nor 3; no Go panic; files created relative to the invocation directory. non-trivial = verify/repair/create runs",
 		Assumptions: []string{"'needed' = some protected file not byte-identical; 'possible' = reference count of unfindable slices (unusable files) <= intact recovery blocks (volumes) present"},
 		NewCase:     func() interface{} { return &c20Case{} },
